@@ -781,10 +781,10 @@ func (h *histRun) racePattern(last int, m string) string {
 				me.active = false
 			}
 		case "crash":
-			if hit && j == last {
+			if hit {
+				// the unsaved field is lost at this crash and stays lost across later restarts
 				return "ack_on_field_created_by_unsaved_concurrent_writer"
 			}
-			hit = false
 			ws = map[int]*wst{}
 		}
 	}
